@@ -4,6 +4,7 @@
 -/
 import Gmars.Proofs.Circ
 import Gmars.Proofs.SpecLocal
+import Gmars.Proofs.Transport
 
 namespace Gmars.Props.C11
 open Gmars Gmars.Spec
@@ -44,6 +45,23 @@ theorem read_locality (M R W : Nat) (c : Core) (pc : Nat) (hR : 0 < R) (hRM : R 
 theorem changed_cells_are_write_targets (M R W : Nat) (c : Core) (pc : Nat) :
     ∀ a, (step M R W c pc).core.at a ≠ c.at a → a ∈ mayTouch M R W c pc :=
   Spec.step_changed_subset M R W c pc
+
+/-- `write_locality` on the model of the Go code: in every state satisfying the invariant, with
+    M ≤ 2^32 and limits not larger than the core, a task alters only cells within ⌊W/2⌋ -/
+theorem model_write_locality (s : Sim) (pc : UInt64) (wi : Nat) (q : PQ) (h : StepPre s pc wi q)
+    (s' : Sim) (he : s.exec pc wi = .ok s') :
+    ∀ a (h1 : a < s.mem.size) (h2 : a < s'.mem.size), s'.mem[a] ≠ s.mem[a] →
+      circDist s.m.toNat a pc.toNat ≤ s.writeLimit.toNat / 2 :=
+  Gmars.model_write_locality s pc wi q h s' he
+
+/-- `read_locality` on the model: every newly queued program counter is PC+1, PC+2 or within
+    ⌊R/2⌋ of the executing instruction -/
+theorem model_read_locality (s : Sim) (pc : UInt64) (wi : Nat) (q : PQ) (h : StepPre s pc wi q)
+    (s' : Sim) (he : s.exec pc wi = .ok s') :
+    ∃ q', s'.pqOf wi = some q' ∧ ∀ x ∈ q'.toList, x ∈ q.toList ∨
+      (x.toNat = (pc.toNat + 1) % s.m.toNat ∨ x.toNat = (pc.toNat + 2) % s.m.toNat ∨
+        circDist s.m.toNat x.toNat pc.toNat ≤ s.readLimit.toNat / 2) :=
+  Gmars.model_read_locality s pc wi q h s' he
 
 -- non-vacuity: M = 8000, L = 300, a pointer that folds backwards
 example : fold 250 300 8000 = 7950 ∧ circDist 8000 ((10 + fold 250 300 8000) % 8000) 10 = 50 := by decide
